@@ -18,7 +18,7 @@ SPEC_FORMS = {"old", "forall", "exists", "implies", "result", "unfold", "iff", "
               "count", "raised", "fresh_const", "pw2", "cls_name", "str_contains", "dyn_float", "to_dyn", "let",
               "map_has", "seq_contains", "str_to_int", "int_to_str", "d_int", "d_float", "d_list", "d_chars", "d_is_int",
               "d_is_float", "d_is_list", "d_is_str", "d_is_dict", "d_is_none", "bitlen", "d_mk_list", "d_mk_str", "d_mk_float",
-              "d_mk_int", "d_mk_dict_empty", "d_set", "size", "d_absent", "fn_name", "effect_count", "effect_arg", "effect_recv", "effect_index", "world", "effect_result", "empty_options", "py_str", "d_ref"}
+              "d_mk_int", "d_mk_dict_empty", "d_set", "size", "d_absent", "fn_name", "effect_count", "effect_arg", "effect_recv", "effect_index", "world", "effect_result", "empty_options", "py_str", "d_ref", "d_name"}
 
 
 class EvalMixin:
